@@ -173,6 +173,8 @@ pub enum IOp {
     /// a probe (canonical) token starts answering metadata reads inconsistently: its real metadata for
     /// `after` reads, then an empty name, an empty symbol and 256 decimals
     ProbeSetFlaky { tok: u8, after: u8 },
+    /// a probe (canonical) token starts answering one metadata getter with a value of another type
+    ProbeSetWeird { tok: u8, mode: u8 },
     Resubmit { k: u16 },
 }
 
@@ -180,6 +182,7 @@ impl IOp {
     pub fn kind(&self) -> &'static str {
         match self {
             IOp::ProbeSetFlaky { .. } => "probe_set_flaky",
+            IOp::ProbeSetWeird { .. } => "probe_set_weird",
             IOp::Trust { .. } => "trust",
             IOp::Deploy { .. } => "deploy",
             IOp::Register { .. } => "register",
